@@ -224,3 +224,63 @@ def _ia(v):
     if k == "R":
         return "R( " + _ia(v[1]) + " )"
     return V.render(v)
+
+
+# ---------------------------------------------------------------- Python 2 as a source of pickles
+
+def _py2_expr(rng, depth=0, key=False):
+    """An expression both Python 2.7 can evaluate: None / bool / int / long / float / str (bytes) / unicode / bytearray / tuple /
+    list / dict.  Literals that repeat are one constant object in Python 2, so its pickler writes memo fetches for them."""
+    r = rng.random()
+    if depth < 3 and r < (0.25 if key else 0.45):
+        n = rng.choice([0, 1, 2, 3, 5])
+        if key or rng.random() < 0.35:
+            items = [_py2_expr(rng, depth + 1, key) for _ in range(n)]
+            return "(" + ", ".join(items) + ("," if n == 1 else "") + ")"
+        if rng.random() < 0.5:
+            return "[" + ", ".join(_py2_expr(rng, depth + 1) for _ in range(n)) + "]"
+        return "{" + ", ".join(_py2_expr(rng, depth + 1, True) + ": " + _py2_expr(rng, depth + 1) for _ in range(n)) + "}"
+    r = rng.random()
+    if r < 0.08:
+        return rng.choice(["None", "True", "False"])
+    if r < 0.30:
+        return repr(rand_pyint(rng))
+    if r < 0.40:
+        f = rand_pyfloat(rng)
+        if f != f:
+            return "1.5" if key else "float('nan')"
+        if f in (float("inf"), float("-inf")):
+            return "float('%s')" % ("inf" if f > 0 else "-inf")
+        return "float.fromhex('%s')" % f.hex()
+    if r < 0.65:
+        b = rand_pybytes(rng) if rng.random() < 0.6 else rng.choice([b"", b"a", b"key", b"it's", b'q"', b"\\", b"a\nb"])
+        return "'" + "".join("\\x%02x" % c for c in b) + "'"
+    if r < 0.90:
+        t = rand_text(rng) if rng.random() < 0.6 else rng.choice(["", "a", "key", "\u20ac", "\xe9", "a\nb\\"])
+        return "u'" + "".join("\\U%08x" % ord(c) for c in t) + "'"
+    if key:
+        return repr(rng.randint(-3, 3))
+    return "bytearray(b'" + "".join("\\x%02x" % c for c in rand_pybytes(rng)) + "')"
+
+
+def py2_pickles(rng, n):
+    """Pickles written by Python 2.7's pickle and cPickle (protocols 0-2) for n generated objects; None where python2 is absent."""
+    import os
+    import subprocess
+    exprs = [_py2_expr(rng) for _ in range(n)]
+    prog = ("import sys, pickle, cPickle\n"
+            "for l in sys.stdin:\n"
+            "    o = eval(l)\n"
+            "    sys.stdout.write(' '.join(m.dumps(o, p).encode('hex') for m in (pickle, cPickle) for p in (0, 1, 2)) + '\\n')\n")
+    try:
+        r = subprocess.run(["python2", "-c", prog], input=("\n".join(exprs) + "\n").encode(), capture_output=True,
+                           env=dict(os.environ, PYENV_VERSION="2.7.18"), timeout=600)
+    except (OSError, subprocess.TimeoutExpired):
+        return None
+    out = r.stdout.decode().split("\n")[:-1]
+    if r.returncode != 0 or len(out) != len(exprs):
+        return None
+    res = []
+    for l in out:
+        res += [bytes.fromhex(h) for h in l.split(" ")]
+    return res
